@@ -639,3 +639,176 @@ func abbrev(s string, n int) string {
 	}
 	return s
 }
+
+// ---------------------------------------------------------------- UNIT-ZOOM (merge)
+
+// ruleUnitZoom: every merge candidate is divided into unit cells at one
+// common unit zoom per axis, the maximum of that axis over ALL candidates.
+// Positive evidence of a violation: the unit zoom handed to
+// NewUnitDividedSpatialID is (a) a running maximum that is still being
+// updated by the loop the division happens in (the result then depends on
+// the order of the input), or (b) read from a single element (the two axis
+// maxima are in general attained by different elements).
+func ruleUnitZoom(w *World, r *Report) {
+	r.Rule("UNIT-ZOOM", "the unit zooms used to divide merge candidates (M in NewUnitDividedSpatialID(id, Mh-id.HZoom(), Mv-id.VZoom())) are final per-axis maxima over all inputs: M is the running maximum (comparison-controlled update or builtin max, initial value 0) of the matching zoom getter over a loop that has finished before the first division; a maximum still being updated in the dividing loop, or a zoom read from one selected element, is a violation")
+	ke := kindsFor(w)
+	n := 0
+	for _, f := range w.ModFuncs {
+		if f.Blocks == nil || f.Synthetic != "" || w.IsCanary(f) {
+			continue
+		}
+		for _, c := range callsTo(f, func(g *ssa.Function) bool { return funcIs(g, modPath+"/integrate", "NewUnitDividedSpatialID") }) {
+			n++
+			for ai, axis := range []string{"", "horizontal", "vertical"} {
+				if ai == 0 {
+					continue
+				}
+				key := fmt.Sprintf("%s / division#%d / %s unit zoom", w.FuncName(f), n, axis)
+				pos := w.Pos(c.Pos())
+				wantK := ks(kHZ)
+				if ai == 2 {
+					wantK = ks(kVZ)
+				}
+				sub, ok := resolve(c.Call.Args[ai]).(*ssa.BinOp)
+				if !ok || sub.Op != token.SUB {
+					r.add("UNIT-ZOOM", key, pos, Undecided, "the zoom difference is not of the form M - id.Zoom() ("+describeValue(c.Call.Args[ai])+")")
+					continue
+				}
+				m := resolve(sub.X)
+				// (b) a getter on one element
+				if gc, isCall := m.(*ssa.Call); isCall && calleeOf(gc) != nil && accessorField(calleeOf(gc)) != nil {
+					r.add("UNIT-ZOOM", key, pos, Violated, "the unit zoom is read from a single element ("+shortInstr(gc)+"): the per-axis maximum over all candidates is required (the finest ID on one axis need not be the finest on the other)")
+					continue
+				}
+				ph, isPhi := m.(*ssa.Phi)
+				if !isPhi {
+					if bc, isB := m.(*ssa.Call); isB && (builtinName(bc) == "max") {
+						// max(...) of a still-updating accumulator inside the loop
+						for _, a := range bc.Call.Args {
+							if p2, ok := resolve(a).(*ssa.Phi); ok {
+								ph, isPhi = p2, true
+							}
+						}
+					}
+				}
+				if !isPhi {
+					r.add("UNIT-ZOOM", key, pos, Undecided, "the unit zoom "+describeValue(m)+" is not a loop-carried maximum the rule can read")
+					continue
+				}
+				var loop *sliceRange
+				for _, sr := range findSliceRanges(f) {
+					if sr.Header == ph.Block() {
+						loop = sr
+					}
+				}
+				if loop == nil {
+					// the value of the iteration in progress: a merge of the loop-carried
+					// accumulator and its update, consumed inside that same loop
+					for _, sr := range findSliceRanges(f) {
+						if !sr.blocks()[c.Block()] || !sr.blocks()[ph.Block()] {
+							continue
+						}
+						seen := map[ssa.Value]bool{}
+						var fromAcc func(v ssa.Value) bool
+						fromAcc = func(v ssa.Value) bool {
+							v = resolve(v)
+							if seen[v] {
+								return false
+							}
+							seen[v] = true
+							switch y := v.(type) {
+							case *ssa.Phi:
+								if y.Block() == sr.Header {
+									return true
+								}
+								for _, e := range y.Edges {
+									if fromAcc(e) {
+										return true
+									}
+								}
+							case *ssa.Call:
+								if bn := builtinName(y); bn == "max" || bn == "min" {
+									for _, a := range y.Call.Args {
+										if fromAcc(a) {
+											return true
+										}
+									}
+								}
+							}
+							return false
+						}
+						if fromAcc(ph) {
+							loop = sr
+						}
+					}
+					if loop != nil {
+						r.add("UNIT-ZOOM", key, pos, Violated, "the ID is divided inside the loop that is still updating the maximum zoom: earlier IDs are divided at a coarser unit zoom than later ones, so the result depends on the order of the input")
+						continue
+					}
+				}
+				if loop == nil {
+					r.add("UNIT-ZOOM", key, pos, Undecided, "the unit zoom is a merged value that is not carried by a range loop")
+					continue
+				}
+				// (a) division inside the loop that still updates the maximum
+				if loop.blocks()[c.Block()] {
+					r.add("UNIT-ZOOM", key, pos, Violated, "the ID is divided inside the loop that is still updating the maximum zoom: earlier IDs are divided at a coarser unit zoom than later ones, so the result depends on the order of the input")
+					continue
+				}
+				// the accumulated quantity: a call of the matching getter on the loop element
+				found, any := false, false
+				for _, b := range f.Blocks {
+					if !loop.blocks()[b] {
+						continue
+					}
+					for _, in := range b.Instrs {
+						gc, ok := in.(*ssa.Call)
+						if !ok || calleeOf(gc) == nil {
+							continue
+						}
+						fv := accessorField(calleeOf(gc))
+						if fv == nil || ke.fieldK[fv] != wantK {
+							continue
+						}
+						any = true
+						if runningMax(f, loop, ph, gc) {
+							found = true
+						}
+					}
+				}
+				if !found {
+					if any && runningMaxOfOtherAxis(f, loop, ph, ke, wantK) {
+						r.add("UNIT-ZOOM", key, pos, Violated, "the "+axis+" unit zoom is the running maximum of the other axis' zoom")
+					} else {
+						r.add("UNIT-ZOOM", key, pos, Undecided, "the loop-carried value was not recognised as the running maximum of the "+axis+" zoom of every input")
+					}
+					continue
+				}
+				r.add("UNIT-ZOOM", key, pos, Discharged, "M = running maximum of the "+axis+" zoom over the whole input list, complete before the first division")
+			}
+		}
+	}
+	if n == 0 {
+		r.add("UNIT-ZOOM", "divisions", "-", Undecided, "no call of integrate.NewUnitDividedSpatialID found")
+	}
+}
+
+// runningMaxOfOtherAxis: the accumulator is the running maximum of the zoom getter of the other axis.
+func runningMaxOfOtherAxis(f *ssa.Function, loop *sliceRange, ph *ssa.Phi, ke *KindEngine, wantK KindSet) bool {
+	other := ks(kVZ)
+	if wantK == ks(kVZ) {
+		other = ks(kHZ)
+	}
+	for b := range loop.blocks() {
+		for _, in := range b.Instrs {
+			gc, ok := in.(*ssa.Call)
+			if !ok || calleeOf(gc) == nil {
+				continue
+			}
+			if fv := accessorField(calleeOf(gc)); fv != nil && ke.fieldK[fv] == other && runningMax(f, loop, ph, gc) {
+				return true
+			}
+		}
+	}
+	return false
+}
